@@ -284,7 +284,7 @@ def corpus_cases():
 
 def chunks(tier, seed):
     ch = [{"kind": "corpus"}]
-    nrand = {"quick": 6000, "thorough": 120000}.get(tier, 15000)
+    nrand = {"quick": 6000, "thorough": 480000}.get(tier, 15000)
     per = max(1, nrand // 16)
     for i in range(16):
         ch.append({"kind": "random", "seed": seed * 1000 + i, "n": per, "reread": i % 4 == 3})
